@@ -82,6 +82,13 @@ func c29Directed(now time.Time) []*verifx.SigSpec {
 	s.NoSlash = true
 	out = append(out, s)
 	out = append(out, base("GET", ""))
+	// body of unknown length: Transfer-Encoding: chunked instead of Content-Length (hashed and unsigned payload)
+	for _, m := range []string{verifx.ModeHash, verifx.ModeUnsigned} {
+		s = base("PUT", "te chunked "+m)
+		s.Mode, s.TEChunk = m, true
+		s.Body = []byte("streamed with unknown length")
+		out = append(out, s)
+	}
 	// the query-string carrier crossed with every other payload mode
 	for _, m := range []string{verifx.ModeHash, verifx.ModeUnsigned, verifx.ModeStream, verifx.ModeStreamTrailer, verifx.ModeStreamUnsignedTrailer, verifx.ModeStreamUnsigned} {
 		s = base("PUT", "presigned "+m)
